@@ -262,4 +262,7 @@ def check(ctx) -> Result:
     res.frozen(bool(mode_defs) and src(mode_defs[0].value).replace(" ", "") == "n_modes-j-2", "A-mode-flip-consistent", "Reck.map:mode", mp.site(), mp.qualname, "unit cell j acts on modes (n-j-2, n-j-1)", "unit-cell mode index changed", construct=src(mode_defs[0]) if mode_defs else "")
     endp = [c for c in pscalls if "end_phases" in src(c)]
     res.frozen(bool(endp) and src(endp[0].args[0]).replace(" ", "") == "n_modes-i-1" and src(endp[0].args[1]) == "end_phases[i]", "A-mode-flip-consistent", "Reck.map:end", mp.site(), mp.qualname, "residual phase i goes to mode n-i-1", "residual phases are applied to the wrong modes", construct=src(endp[0]) if endp else "")
+    from ..rules import rz_falsy
+    nz = rz_falsy.none_checks(ctx, res, "C14", ())
+    res.floor("Z functions scanned", nz, 3)
     return res
